@@ -299,8 +299,16 @@ class IoWrite(OpSpec):
         layout = op.get("layout")
         prop = op.get("prop") or g.prop_write
         a = g.alpha(h.obj)
-        c09 = prop == "C09"  # the pipeline property has its own (generator-enforced) domain and its own oracle
+        c09 = prop in ("C09", "C14")  # C09 has its own (generator-enforced) domain and oracle; C14 judges the frame only
+        frame_only = prop == "C14"
         why = "" if c09 else g.writable(a, layout)
+        if frame_only:
+            # inputs-unchanged is judged also for charts a writer cannot represent faithfully, as long as writing them is
+            # cheap: structural preconditions (grid, measure lines, columns) still apply, purely semantic ones do not
+            why = g.writable(a, layout)
+            if why and any(why.startswith(x) for x in ("LNOBJ id", "sample table", "header", "sample not bytes", "tempo value with more")):
+                out.probes.append("write_outside_writer_domain:" + why.split(" ")[0])
+                why = ""
         if why:
             out.skipped = True
             out.note = ("io.write", "out-of-domain", why)
@@ -345,6 +353,9 @@ class IoWrite(OpSpec):
             if any(k in ("eio_write", "enospc", "close_error") for k in fired):
                 out.probes.append("write_fault_raised")
                 return out
+            if frame_only:
+                out.probes.append("write_raised_outside_writer_domain")
+                return out  # the chart may be outside the writer's domain; only "inputs unchanged" (I1) is judged
             unexpected(out, prop, inv, f"{op['game']} write_file", res)
             return out
         sess.io_ok += 1
@@ -355,6 +366,8 @@ class IoWrite(OpSpec):
             return out
         if fired:
             out.probes.append("write_returned_despite_fault")
+        if frame_only:
+            return out
         try:
             den = g.parse(data, layout)
         except Exception as e:  # noqa
